@@ -14,9 +14,25 @@ class Refused(Exception):
     pass
 
 
-def generate(obj, hierarchy=True, **kw):
+def generate(obj, hierarchy=True, history=(), **kw):
+    """history: earlier requests made on the same generator object before the judged one - 'hier_top', 'flat_top',
+    'hier_child', 'flat_child' (child = the first descendant emitted as its own module); their outcome is ignored"""
     try:
         g = py4hw.VerilogGenerator(obj)
+        for h in history:
+            try:
+                target = obj
+                if h.endswith('child'):
+                    kids = [c for c in obj.children.values() if not g.isInlinable(c)]
+                    if not kids:
+                        continue
+                    target = kids[0]
+                if h.startswith('hier'):
+                    g.getVerilogForHierarchy(target)
+                else:
+                    g.getVerilog(target)
+            except Exception:
+                pass
         if hierarchy:
             return g.getVerilogForHierarchy(**kw)
         return g.getVerilog(**kw)
